@@ -74,7 +74,7 @@ impl Monitor for C15 {
         "C15"
     }
     fn rule(&self) -> String {
-        "cases = a package with n candidates (random ranks => random discovery order) revealed through union requirements '(z | subset of a)' in random partitions / orders / overlaps, or not revealed at all; for n <= 40 ALL pairs i<j and all singles are checked for every reveal variant (exhaustive subset, `fixed` work), for n up to 260 sampled pairs crossing the 2^k boundaries. Oracle (expected by construction): {reveal.., =i, =j} is Unsolvable, {reveal.., =i} is Ok and contains exactly candidate i of the package. Discovery through a `constrains` entry first (no reveal variants, sampled pairs): a solvable that is tried first constrains the package, is abandoned after a conflict, and the pair / single is then required two levels down: same expectation. Hook monitor after each solve: over the dumped forbid clauses of the package, unit propagation from any registered candidate must falsify every other one without conflict (layout independent). distinct = (n, variant, pair); non-trivial = pair at a size where >= 1 helper variable exists (n >= 2)".into()
+        "cases = a package with n candidates (random ranks => random discovery order) revealed through union requirements '(z | subset of a)' in random partitions / orders / overlaps, or not revealed at all; for n <= 40 ALL pairs i<j and all singles are checked for every reveal variant (exhaustive subset, `fixed` work), for n up to 260 sampled pairs crossing the 2^k boundaries. Oracle (expected by construction): {reveal.., =i, =j} is Unsolvable, {reveal.., =i} is Ok and contains exactly candidate i of the package. Discovery through a `constrains` entry first (no reveal variants, sampled pairs): a solvable that is tried first constrains the package, is abandoned after a conflict, and the pair / single is then required two levels down: same expectation. Reused solver: after a warm-up solve that met the package, sampled pairs / singles on the SAME solver: same expectation. Revealed while ruled out: a hinted solvable tried first constrains candidate i away before a later requirement reveals exactly i, is abandoned, and i becomes true (pair with j: Unsolvable; alone: exactly i). Hook monitor after each solve: over the dumped forbid clauses of the package, unit propagation from any registered candidate must falsify every other one without conflict (layout independent). distinct = (n, variant, pair); non-trivial = pair at a size where >= 1 helper variable exists (n >= 2)".into()
     }
     fn cases(&self, tier: Tier) -> u64 {
         tier.pick(1_800, 36_000)
@@ -235,6 +235,117 @@ impl Monitor for C15 {
                         }
                         (Outcome::Unsat(_), true) => ctx.violation("single candidate of a package is not selectable (package first met through a constrains entry)", format!("n={} single {i}", c.n)),
                         (o, _) => ctx.violation(format!("constraint-first problem did not produce a verdict: {}", o.tag()), format!("n={} pair ({i},{j}) single={single}", c.n)),
+                    }
+                }
+            }
+        }
+        // reused solver: an earlier solve on the same solver has already met the package (all of it
+        // through `a *`, or one candidate); afterwards pairs must still be Unsolvable and singles
+        // selectable, as for a fresh solver
+        {
+            let step = (c.pairs.len() / 5).max(1);
+            let warm_all = u.vsets.iter().position(|v| v.name == 0 && v.matching.len() == c.n as usize);
+            let mut sess = crate::run::Session::new(u.clone(), &c.opts);
+            let mut warmed = false;
+            for (t, &(i, j)) in c.pairs.iter().step_by(step).take(6).enumerate() {
+                if !warmed {
+                    // warm-up problem: everything (if such a version set exists), else candidate j alone
+                    let w = match warm_all {
+                        Some(v) if t % 2 == 0 => Req::Single(v as u32),
+                        _ => Req::Single(c.singles[j as usize]),
+                    };
+                    let mut reqs = c.reveal.clone();
+                    reqs.push(w);
+                    let _ = sess.solve(&Prob { reqs, cons: vec![], soft: vec![] });
+                    warmed = true;
+                }
+                ctx.rep.evaluations += 2;
+                ctx.rep.count("reused-solver-problems");
+                let mut reqs = c.reveal.clone();
+                reqs.push(Req::Single(c.singles[i as usize]));
+                reqs.push(Req::Single(c.singles[j as usize]));
+                match sess.solve(&Prob { reqs, cons: vec![], soft: vec![] }) {
+                    Outcome::Unsat(_) => {}
+                    Outcome::Ok(sol) => ctx.violation(
+                        "two candidates of one package selected together on a reused solver",
+                        format!("n={} pair ({i},{j}) -> {:?}", c.n, sol.iter().map(|&s| u.solv_label(s)).collect::<Vec<_>>()),
+                    ),
+                    o => {
+                        ctx.violation(format!("pair problem on a reused solver did not produce a verdict: {}", o.tag()), format!("n={} pair ({i},{j})", c.n));
+                        break;
+                    }
+                }
+                let mut reqs = c.reveal.clone();
+                reqs.push(Req::Single(c.singles[i as usize]));
+                match sess.solve(&Prob { reqs, cons: vec![], soft: vec![] }) {
+                    Outcome::Ok(sol) => {
+                        let of_a: Vec<u32> = sol.iter().copied().filter(|&s| u.solvs[s as usize].name == 0).collect();
+                        if of_a != vec![i] {
+                            ctx.violation("single candidate requested on a reused solver but a different set of the package was selected", format!("n={} single {i} -> {:?}", c.n, of_a));
+                        }
+                    }
+                    Outcome::Unsat(_) => ctx.violation("single candidate of a package is not selectable on a reused solver", format!("n={} single {i}", c.n)),
+                    o => {
+                        ctx.violation(format!("single problem on a reused solver did not produce a verdict: {}", o.tag()), format!("n={} single {i}", c.n));
+                        break;
+                    }
+                }
+            }
+        }
+        // revealed while ruled out: pp=2 (tried first, dependencies hinted as available) constrains the
+        // package to a range without candidate i, so candidate i is assigned false before anything
+        // reveals it; qq=1 then requires exactly candidate i (revealed while false) -> pp=2 is
+        // abandoned for pp=1 and candidate i becomes true. With candidate j required as well the
+        // problem is Unsolvable; without it exactly candidate i is selected.
+        if c.n >= 2 {
+            let step = (c.pairs.len() / 4).max(1);
+            for (t, &(i, j)) in c.pairs.iter().step_by(step).take(5).enumerate() {
+                for single in [false, true] {
+                    ctx.rep.evaluations += 1;
+                    ctx.rep.count("revealed-while-false-problems");
+                    let mut uu = (*u).clone();
+                    let (p2, _p1, q1) = (uu.solv("pp", 2), uu.solv("pp", 1), uu.solv("qq", 1));
+                    // all candidates except i (versions are index + 1)
+                    let without_i: Vec<u32> = (0..c.n).filter(|&x| x != i).collect();
+                    let label = format!("not-{}", i + 1);
+                    let not_i = uu.vs_ext("a", &label, without_i);
+                    uu.add_con(p2, not_i);
+                    uu.add_req(q1, Req::Single(c.singles[i as usize]));
+                    let (p_any, q_any) = (uu.vs("pp", 0, 1000), uu.vs("qq", 0, 1000));
+                    uu.finalize();
+                    // only pp's dependencies are available eagerly (its constrains clause exists before
+                    // pp=2 is decided); qq=1 is encoded after it was selected, when i is already false
+                    for pk in &mut uu.pkgs {
+                        pk.hint = match t % 3 {
+                            0 | 1 if pk.name == "pp" => Hint::All,
+                            2 => Hint::All,
+                            _ => Hint::None,
+                        };
+                    }
+                    let uu = Rc::new(uu);
+                    let mut reqs = vec![Req::Single(p_any), Req::Single(q_any)];
+                    if !single {
+                        reqs.push(Req::Single(c.singles[j as usize]));
+                    }
+                    if t % 2 == 1 {
+                        reqs.reverse();
+                    }
+                    let p = Prob { reqs, cons: vec![], soft: vec![] };
+                    let (_sess, out) = solve_once(&uu, &p, &c.opts);
+                    match (&out, single) {
+                        (Outcome::Unsat(_), false) => {}
+                        (Outcome::Ok(sol), false) => ctx.violation(
+                            "two candidates of one package selected together (candidate revealed while it was ruled out)",
+                            format!("n={} pair ({i},{j}) -> {:?}", c.n, sol.iter().map(|&s| uu.solv_label(s)).collect::<Vec<_>>()),
+                        ),
+                        (Outcome::Ok(sol), true) => {
+                            let of_a: Vec<u32> = sol.iter().copied().filter(|&s| uu.solvs[s as usize].name == 0).collect();
+                            if of_a != vec![i] {
+                                ctx.violation("single candidate requested (revealed while it was ruled out) but a different set was selected", format!("n={} single {i} -> {:?}", c.n, of_a));
+                            }
+                        }
+                        (Outcome::Unsat(_), true) => ctx.violation("single candidate of a package is not selectable (revealed while it was ruled out)", format!("n={} single {i}", c.n)),
+                        (o, _) => ctx.violation(format!("revealed-while-false problem did not produce a verdict: {}", o.tag()), format!("n={} pair ({i},{j}) single={single}", c.n)),
                     }
                 }
             }
